@@ -1,5 +1,185 @@
-"""tree helpers (filled in with the tree checks)"""
+"""Tree helpers shared by C02 / C05 (tree part) / C11 / C12 / C14."""
+import itertools
+
+import numpy as np
+
+from mc import env  # noqa: F401
+from mc.space import plane_trees
+
+
+def distributions(m, N):
+    """all ways to put m labelled items into N ordered lists (order inside a list matters):  N(N+1)...(N+m-1) of them.
+    returned as tuple of N tuples"""
+    def rec(i, lists):
+        if i == m:
+            yield tuple(tuple(l) for l in lists)
+            return
+        for k in range(N):
+            for pos in range(len(lists[k]) + 1):
+                new = [list(l) for l in lists]
+                new[k].insert(pos, i)
+                yield from rec(i + 1, new)
+    yield from rec(0, [[] for _ in range(N)])
+
+
+def build_basis_tree(parent, groups, basis_list):
+    """parent: preorder parent vector; groups[i]: indices into basis_list for node i (empty -> dummy node)"""
+    from renormalizer.tn import BasisTree, TreeNodeBasis
+    nodes = []
+    for g in groups:
+        nodes.append(TreeNodeBasis([basis_list[j] for j in g]) if g else TreeNodeBasis())
+    for i, p in enumerate(parent):
+        if p >= 0:
+            nodes[p].add_child(nodes[i])
+    return BasisTree(nodes[0])
+
+
+def permute_children(parent, perm_seed):
+    """another plane tree with the same rooted-tree shape: children lists permuted (deterministically from perm_seed).
+    returns (new_parent_vector, mapping old node -> new node)"""
+    n = len(parent)
+    children = {i: [j for j in range(n) if parent[j] == i] for i in range(n)}
+    rs = np.random.RandomState(perm_seed)
+    new_parent = []
+    mapping = {}
+
+    def walk(old, newpar):
+        idx = len(new_parent)
+        mapping[old] = idx
+        new_parent.append(newpar)
+        ch = list(children[old])
+        if len(ch) > 1:
+            ch = [ch[k] for k in rs.permutation(len(ch))]
+            if ch == children[old]:
+                ch = ch[::-1]
+        for c in ch:
+            walk(c, idx)
+    walk(0, -1)
+    return new_parent, mapping
+
+
+def dense_state(ttns, order):
+    """dense vector x coeff in the explicit order of (non-dummy) basis sets"""
+    v = np.asarray(ttns.todense(order)).reshape(-1)
+    return v * ttns.coeff
+
+
+def tree_edges_bipartitions(parent, groups, nphys):
+    """for every non-root node: the set of physical basis indices in its subtree"""
+    n = len(parent)
+    sub = {i: set(groups[i]) for i in range(n)}
+    for i in range(n - 1, 0, -1):
+        sub[parent[i]] |= sub[i]
+    return {i: sorted(sub[i]) for i in range(1, n)}
 
 
 def run_c05_tree(desc, seed):
-    return {"skipped": 1, "outcome": "tree-part-not-built-yet"}
+    """C05, tree part: TTNS.compress with per-node limits on every plane tree"""
+    from renormalizer.tn import TTNS
+    from renormalizer.model import basis as ba
+    from renormalizer.utils import CompressConfig, CompressCriteria
+    parent = desc["parent"]
+    N = len(parent)
+    kind = desc["kind"]
+    if kind == "qn":
+        basis_list = [ba.BasisSimpleElectron(i) for i in range(N)]
+        qntot = max(1, N // 2)
+    else:
+        basis_list = [ba.BasisHalfSpin(i) if i % 2 == 0 else ba.BasisSHO(i, 1.0, 3) for i in range(N)]
+        qntot = 0
+    groups = [(i,) for i in range(N)]
+    viol = {}
+    ncomp = 0
+    truncated = False
+
+    def add(sig, msg):
+        if sig not in viol:
+            viol[sig] = {"sig": sig, "msg": msg}
+
+    def fresh():
+        tree = build_basis_tree(parent, groups, basis_list)
+        env.reseed(seed, ("c05tree", tuple(parent), kind))
+        t = TTNS.random(tree, qntot, 12)
+        t.coeff = 1
+        return tree, t
+
+    tree, base = fresh()
+    order = list(basis_list)
+    psi = dense_state(base, order)
+    dims = [b.nbas for b in basis_list]
+    norm = np.linalg.norm(psi)
+    if norm == 0 or not np.all(np.isfinite(psi)):
+        return {"skipped": 1, "outcome": "degenerate-random-state"}
+    subs = tree_edges_bipartitions(parent, groups, N)
+    spectra = {}
+    T = psi.reshape(dims)
+    for node, inside in subs.items():
+        outside = [i for i in range(N) if i not in inside]
+        M_ = np.transpose(T, inside + outside).reshape(int(np.prod([dims[i] for i in inside])), -1)
+        spectra[node] = np.linalg.svd(M_, compute_uv=False)
+    slack = 1e-9 * norm
+    specs = []
+    for M in (1, 2, 3):
+        specs.append(("global", M, {i: M for i in range(1, N)}))
+        specs.append(("temp-int", M, {i: M for i in range(1, N)}))
+    for vec in itertools.product((1, 2, 3), repeat=N - 1):
+        if len(set(vec)) == 1:
+            continue
+        specs.append(("max_dims", vec, {i + 1: vec[i] for i in range(N - 1)}))
+        specs.append(("temp-list", vec, {i + 1: vec[i] for i in range(N - 1)}))
+    for thr in (0.5, 0.1, 1e-2):
+        specs.append(("threshold", thr, None))
+    for style, payload, limits in specs:
+        tree, t = fresh()
+        try:
+            t.canonicalise()
+            temp = None
+            if style == "global":
+                t.compress_config = CompressConfig(CompressCriteria.fixed, max_bonddim=payload)
+            elif style == "temp-int":
+                t.compress_config = CompressConfig(CompressCriteria.fixed, max_bonddim=64)
+                temp = payload
+            elif style == "max_dims":
+                t.compress_config = CompressConfig(CompressCriteria.fixed, max_bonddim=64)
+                t.compress_config.max_dims = np.array([1] + list(payload) + [1])
+            elif style == "temp-list":
+                t.compress_config = CompressConfig(CompressCriteria.fixed, max_bonddim=64)
+                temp = [1] + list(payload)
+            else:
+                t.compress_config = CompressConfig(CompressCriteria.threshold, threshold=payload)
+            ncomp += 1
+            r, s_array = t.compress(temp_m_trunc=temp, ret_s=True)
+        except Exception as e:
+            import sys
+            import traceback
+            tb = traceback.extract_tb(sys.exc_info()[2])
+            lib = [f.name for f in tb if "/renormalizer/" in f.filename]
+            add(f"C05:tree:exception:{type(e).__name__}:{lib[-1] if lib else '?'}:{style}", f"tree {parent} {kind} {style}={payload}: {e!r}")
+            continue
+        phi = dense_state(t, order)
+        bd = list(t.bond_dims)
+        mb = {i: bd[i] for i in range(1, N)}
+        if limits is not None:
+            for i in range(1, N):
+                if mb[i] > limits[i]:
+                    add(f"C05:tree:limit-exceeded:{style}", f"tree {parent} {kind} {style}={payload}: bond of node {i} has dimension {mb[i]} > {limits[i]}; bond dims {bd}")
+        if np.linalg.norm(phi) > norm * (1 + 1e-9):
+            add("C05:tree:norm-grew", f"tree {parent} {style}={payload}")
+        dist = np.linalg.norm(psi - phi)
+        lows = [np.sqrt(np.sum(spectra[i][mb[i]:] ** 2)) for i in range(1, N)]
+        low, up = max(lows), np.sqrt(sum(x ** 2 for x in lows))
+        if any(mb[i] < len(spectra[i]) and spectra[i][mb[i]] > 1e-12 * norm for i in range(1, N)):
+            truncated = True
+        if dist < low - slack:
+            add("C05:tree:below-eckart-young", f"tree {parent} {kind} {style}={payload}: distance {dist} < {low}")
+        if dist > up + slack:
+            add(f"C05:tree:above-discarded-weight:{style}", f"tree {parent} {kind} {style}={payload}: distance {dist:.6e} > {up:.6e}; bond dims {bd}")
+        # singular values returned for the first compressed bond (root -> first child) are those of the original state
+        first = 1
+        got = np.sort(np.asarray(s_array[first]))[::-1]
+        ref = spectra[first]
+        k = max(len(got), len(ref))
+        if not np.allclose(np.pad(got, (0, k - len(got))), np.pad(ref, (0, k - len(ref))), atol=1e-9 * norm):
+            add("C05:tree:ret_s", f"tree {parent} {kind} {style}: singular values of the first bond {got} vs dense {ref}")
+    return {"nontrivial": truncated, "counters": {"compressions": ncomp}, "outcome": f"tree:{'viol' if viol else 'ok'}",
+            "viol": list(viol.values()), "sample": {"desc": desc, "edge_ranks": {str(k): int(np.sum(v > 1e-12 * norm)) for k, v in spectra.items()}}}
